@@ -7,7 +7,7 @@ From Coq Require Import ZArith List.
 Import ListNotations.
 From V Require Import Valid.Hier Valid.Walk Valid.FlatRegion Valid.Run.
 From Coq Require Import Lia.
-From V Require Import Model.Pipe Model.PipeBounded Model.PipeBounded4 Model.Graph Model.Edits Model.Edits2 Model.JoinPath Model.Refine Model.CbPath Model.LoopEdit Model.LoopSpec Model.LoopPath Model.LoopPath2 Model.IbPath Model.Extract Model.ExtractPath.
+From V Require Import Model.Pipe Model.PipeBounded Model.PipeBounded4 Model.Graph Model.Edits Model.Edits2 Model.JoinPath Model.Refine Model.CbPath Model.LoopEdit Model.LoopSpec Model.LoopPath Model.LoopPath2 Model.IbPath Model.Extract Model.ExtractPath Model.CbHier Model.CbHierPath.
 
 Theorem C01_checker_sound :
   forall rw g h, c01_check rw g h = true -> PathEq rw g h.
@@ -238,6 +238,35 @@ Proof.
 Qed.
 Print Assumptions C01_region_extraction_preserves_paths.
 
+(* header unification at ANY level of a hierarchy and with ANY kind of predecessor, for ALL hierarchies
+   (no bound): CbHier.insert_cb_h - the line-by-line model of insert_block_and_control_blocks on
+   hierarchies, compared with the code on every call the pipeline makes (nested levels, predecessors
+   that are regions or branching synthetic blocks) - keeps the flat walk.  A region predecessor has the
+   renaming pushed down its exiting blocks (update_exiting); the theorem follows the arc as control
+   really takes it, from the block at the bottom *)
+Theorem C01_header_unification_any_level_preserves_paths :
+  forall h lvl new var preds Ss names h',
+    insert_cb_h h lvl new var preds Ss names = XOk h' ->
+    (exists rank : name -> nat, forall x n, find h x = Some n -> (rank (n_parent n) < rank x)%nat) ->
+    (exists nl0, find h lvl = Some nl0 /\ is_region nl0 = true) ->
+    (forall p, In p preds -> p <> lvl /\ exists n0, find h p = Some n0 /\ n_parent n0 = lvl) ->
+    (NoDup names /\ forall a, In a names -> find h a = None /\ ~ In a Ss /\ a <> new) ->
+    find h new = None ->
+    (forall x n, find h x = Some n -> is_region n = false ->
+       NoDup (n_jt n) /\ (forall a, In a names -> ~ In a (n_jt n)) /\
+       (forall c v tbl, n_kind n = KBranch c v tbl -> NoDup (map fst tbl) /\ v <> var) /\
+       (forall a, n_kind n = KAssign a -> forall p, In p a -> fst p <> var)) ->
+    (forall x n t, find h x = Some n -> is_region n = false -> In t (n_jt n) -> enter_flat h (S (length h)) t <> None) ->
+    (forall s, In s Ss -> enter_flat h (S (length h)) s <> None) ->
+    forall n e e' ds tr st,
+      (exists b p, find h n = Some b /\ n_kind b = KOrig p) ->
+      E (Fc var) e e' ->
+      WTrace h (resolve_flat h) false n e ds tr st -> WTrace h' (resolve_flat h') false n e' ds tr st.
+Proof.
+  intros h lvl new var preds Ss names h'. exact (insert_cb_h_keeps_walks h lvl new var preds Ss names h' false).
+Qed.
+Print Assumptions C01_header_unification_any_level_preserves_paths.
+
 (* the generic reason (Model/Refine.v): an edit keeps every walk when each old block keeps its kind and
    arity and each way of leaving it leads, through a bridge that only touches fresh variables, to the
    block it led to before *)
@@ -419,4 +448,46 @@ Proof.
     + cbn. lia.
   - intros x n t Hx Hl Ht. destruct (Hf x n Hx) as [[-> ->]|[[-> ->]|[[-> ->]|[-> ->]]]]; try discriminate; cbn in Ht;
       intuition (subst; vm_compute; discriminate).
+Qed.
+
+(* non-vacuity of C01_header_unification_any_level_preserves_paths: the predecessors are the block 5
+   (two arcs into S) and the loop region 20, whose exiting block 21 holds the arc into S *)
+Example C01_header_unification_any_level_example :
+  let h := [ mkNode 1 0 [] [] (KRegion 1 0 0 [5; 20; 7; 8] 0 true);
+             mkNode 5 1 [7; 8] [] (KOrig 1);
+             mkNode 20 1 [8] [] (KRegion 2 21 21 [21] 1 true);
+             mkNode 21 20 [21; 8] [21] (KOrig 1);
+             mkNode 7 1 [] [] (KOrig 1); mkNode 8 1 [] [] (KOrig 1) ] in
+  exists h', insert_cb_h h 1 40 9 [5; 20] [7; 8] [30; 31; 32] = XOk h' /\
+    find h' 21 = Some (mkNode 21 20 [21; 32] [21] (KOrig 1)) /\
+    forall n e e' ds tr st,
+      (exists b p, find h n = Some b /\ n_kind b = KOrig p) -> E (Fc 9) e e' ->
+      WTrace h (resolve_flat h) false n e ds tr st -> WTrace h' (resolve_flat h') false n e' ds tr st.
+Proof.
+  cbv zeta. eexists. split; [vm_compute; reflexivity|]. split; [vm_compute; reflexivity|].
+  assert (Hf : forall x n, find [ mkNode 1 0 [] [] (KRegion 1 0 0 [5; 20; 7; 8] 0 true);
+             mkNode 5 1 [7; 8] [] (KOrig 1); mkNode 20 1 [8] [] (KRegion 2 21 21 [21] 1 true);
+             mkNode 21 20 [21; 8] [21] (KOrig 1); mkNode 7 1 [] [] (KOrig 1); mkNode 8 1 [] [] (KOrig 1) ] x = Some n ->
+             (x = 1 /\ n = mkNode 1 0 [] [] (KRegion 1 0 0 [5; 20; 7; 8] 0 true)) \/ (x = 5 /\ n = mkNode 5 1 [7; 8] [] (KOrig 1)) \/
+             (x = 20 /\ n = mkNode 20 1 [8] [] (KRegion 2 21 21 [21] 1 true)) \/ (x = 21 /\ n = mkNode 21 20 [21; 8] [21] (KOrig 1)) \/
+             (x = 7 /\ n = mkNode 7 1 [] [] (KOrig 1)) \/ (x = 8 /\ n = mkNode 8 1 [] [] (KOrig 1))).
+  { intros x n. cbn [find n_name].
+    destruct (Z.eqb_spec 1 x); [intros [= <-]; subst; auto|]. destruct (Z.eqb_spec 5 x); [intros [= <-]; subst; auto|].
+    destruct (Z.eqb_spec 20 x); [intros [= <-]; subst; auto 6|]. destruct (Z.eqb_spec 21 x); [intros [= <-]; subst; auto 7|].
+    destruct (Z.eqb_spec 7 x); [intros [= <-]; subst; auto 8|]. destruct (Z.eqb_spec 8 x); [intros [= <-]; subst; auto 9|discriminate]. }
+  apply (C01_header_unification_any_level_preserves_paths _ 1 40 9 [5; 20] [7; 8] [30; 31; 32]).
+  - vm_compute. reflexivity.
+  - exists (fun x => if Z.eqb x 0 then 0%nat else if Z.eqb x 1 then 1%nat else if Z.eqb x 21 then 3%nat else 2%nat).
+    intros x n Hx. destruct (Hf x n Hx) as [[-> ->]|[[-> ->]|[[-> ->]|[[-> ->]|[[-> ->]|[-> ->]]]]]]; cbn; lia.
+  - eexists. split; reflexivity.
+  - intros p [<-|[<-|[]]]; (split; [lia|]); eexists; split; reflexivity.
+  - split; [repeat constructor; cbn; intuition lia|].
+    intros a Ha. cbn in Ha. destruct Ha as [<-|[<-|[<-|[]]]]; (split; [reflexivity|]); cbn; intuition lia.
+  - reflexivity.
+  - intros x n Hx Hl. destruct (Hf x n Hx) as [[-> ->]|[[-> ->]|[[-> ->]|[[-> ->]|[[-> ->]|[-> ->]]]]]]; try discriminate;
+      (split; [repeat constructor; cbn; intuition lia|]); (split; [intros a Ha; cbn in Ha |- *; intuition lia|]);
+      (split; intros; discriminate).
+  - intros x n t Hx Hl Ht. destruct (Hf x n Hx) as [[-> ->]|[[-> ->]|[[-> ->]|[[-> ->]|[[-> ->]|[-> ->]]]]]]; try discriminate; cbn in Ht;
+      intuition (subst; vm_compute; discriminate).
+  - intros s0 Hs0. cbn in Hs0. intuition (subst; vm_compute; discriminate).
 Qed.
